@@ -170,9 +170,9 @@ func c01Units(ctx *core.Ctx) []core.Unit {
 		r.Sample(map[string]interface{}{"statement": stmt{label: "vt", zs: []int{7, 8, 200}, polys: []namedPoly{a, a, a}, share: []int{1, 0, 1}, reprs: []int{reprFlip, reprProjFlip, reprNorm}}.String()})
 	}})
 	// (3) size sweep
-	sizes := []int{4, 5, 6, 7, 8, 9, 10, 11, 12, 13, 14, 15, 16, 17, 18, 19, 20, 31, 32, 33, 255, 256, 257}
+	sizes := []int{4, 5, 6, 7, 8, 9, 10, 11, 12, 13, 14, 15, 16, 17, 18, 19, 20, 31, 32, 33, 255, 256, 257, 1025}
 	if ctx.Thorough() {
-		sizes = append(sizes, 1000, 1024, 1025)
+		sizes = append(sizes, 1000, 1024, 2049)
 	}
 	for _, n := range sizes {
 		n := n
